@@ -296,8 +296,13 @@ def c12_r6(ctx):
     else:
         # the key tested is the buffer index of the source's rule (field 0 of the map entry)
         ko = f.origins_of_operand(c.args[1])
-        if not (ko and all(is_call(o, HM_GET) and o[-1] == ("field", 0) for o in ko)):
-            ctx.viol((f.id, "cycle-test-key"), "the cycle test does not ask about the rule that owns the source", c.where)
+        if not (ko and all(is_call(o, HM_GET) and o[1:] == (("variant", "Some"), ("field", 0), ("field", 0)) for o in ko)):
+            ctx.viol((f.id, "cycle-test-key"), "the cycle test does not ask about the rule that owns the source (its key is not exactly the rule index of the map entry: a key that also carries the position among the rule's targets lets a cycle through another target of the same rule pass)", c.where)
+        # what is put into / taken out of the set is the rule index of a frame, nothing more
+        for i2 in [x for x in f.calls_to(HS_INSERT) + f.calls_to(HS_REMOVE) if f.vars_of_operand(x.args[0]) == S]:
+            io = f.origins_of_operand(i2.args[1])
+            if not (io and all(o[-1] == ("field", "index") for o in io)):
+                ctx.viol((f.id, "cycle-set-key", i2.name), "the on-stack set is keyed by something other than a frame's rule index (%s)" % sorted(map(fmt_origin, io))[:2], i2.where)
         else:
             ctx.ok()
     sd = f.constructs(ERR, "SelfDependentRule")
